@@ -173,6 +173,21 @@ pub(crate) fn handle_submit(
         ));
     }
 
+    if let JobTaskDescription::Array {
+        ids,
+        entries: Some(entries),
+        ..
+    } = &message.submit_desc.task_desc
+        && !ids.is_empty()
+        && ids.id_count() as usize != entries.len()
+    {
+        return ToClientMessage::Error(format!(
+            "The number of task ids ({}) does not match the number of entries ({})",
+            ids.id_count(),
+            entries.len()
+        ));
+    }
+
     let mut state = state_ref.get_mut();
     if let Some(err) = validate_submit(
         message.job_id.and_then(|job_id| state.get_job(job_id)),
